@@ -215,7 +215,7 @@ static std::string diff(const Res& a, const Res& b) {
 }
 
 // ---- a solver together with everything it refers to; H must provide init(), compute(), S& solver() ----
-struct Params { int n, nev, ncv, sel, sort; long maxit; double tol; Vec v0; };
+struct Params { int n, nev, ncv, sel, sort; long maxit; double tol; Vec v0; bool dflt = false; };   // dflt: v0 IS the library's default start vector and the argument-less init() is called
 template <class H> static void run_clean(H& h, Log14& log, Res& r) {
     r = Res(); log.clear(); log.throw_at = -1; log.poison_at = -1;
     const char* tn = nullptr;
@@ -453,7 +453,7 @@ struct GenResp { const Params* P;
 
 // ---- holders: operators + solver, constructed in this order ----
 #define HOLDER_COMMON(SolverT) bool op_state_ok() const { return true; } void op_repair() {} HOLDER_BASE(SolverT)
-#define HOLDER_BASE(SolverT) SolverT S; const Params* P; SolverT& solver() { return S; } void init() { S.init(P->v0.data()); } long compute() { return (long) S.compute((SortRule) P->sel, P->maxit, P->tol, (SortRule) P->sort); }
+#define HOLDER_BASE(SolverT) SolverT S; const Params* P; SolverT& solver() { return S; } void init() { if (P->dflt) S.init(); else S.init(P->v0.data()); } long compute() { return (long) S.compute((SortRule) P->sel, P->maxit, P->tol, (SortRule) P->sort); }
 struct HSym { FMatOp op; HOLDER_COMMON(Spectra::SymEigsSolver<FMatOp>) HSym(const Mat& A, Log14& l, const Params& p) : op(A, l), S(op, p.nev, p.ncv), P(&p) {} };
 struct HSymShift { FMatOp op; HOLDER_COMMON(Spectra::SymEigsShiftSolver<FMatOp>) HSymShift(const Mat& Inv, Log14& l, const Params& p, double sigma) : op(Inv, l), S(op, p.nev, p.ncv, sigma), P(&p) {} };
 struct HHerm { FHermOp op; Spectra::HermEigsSolver<FHermOp> S; const Params* P; CVec z; Spectra::HermEigsSolver<FHermOp>& solver() { return S; }
@@ -498,6 +498,9 @@ int main(int argc, char** argv) {
         P.sel = gen ? grule[r.below(6)] : hsel[r.below(5)]; P.sort = gen ? grule[r.below(6)] : hsort[r.below(4)];
         static const long mi[6] = {0, 1, 2, 3, 5, 30}; P.maxit = mi[r.below(6)]; static const double tl[3] = {1e-4, 1e-8, 1e-12}; P.tol = tl[r.below(3)];
         P.v0 = Vec(P.n); for (int j = 0; j < P.n; j++) P.v0[j] = r.sym();
+        // in 40 % of the cases the faulted run and the recovery use the argument-less init(): v0 is then the vector that overload draws
+        // (SimpleRandom seed 0), so the requests for the model, which carry v0 explicitly, describe the same run
+        if (r.coin(0.4)) { Spectra::SimpleRandom<double> rng0(0); P.v0 = rng0.random_vec(P.n); P.dflt = true; out.count("default_init_cases"); }
         const int kind = r.range(0, 7); static const double scales[4] = {1.0, 1.0, 1e-5, 300.0}; const double scale = scales[r.below(4)];
         Log14 log; Ctx c{&out, args.seed, cs, "", "kind=" + str(kind) + " scale=" + str(scale), &P, thorough};
         const int n = P.n;
